@@ -84,6 +84,56 @@ def separation_margin(expr, kernel_names):
     return None, "unrecognised shape: " + U(expr)
 
 
+ON_PATH_FORMS = ["(nx.descendants(M_g, M_s) | {M_s}) & (nx.ancestors(M_g, M_t) | {M_t})",
+                 "(nx.ancestors(M_g, M_t) | {M_t}) & (nx.descendants(M_g, M_s) | {M_s})",
+                 "({M_s} | nx.descendants(M_g, M_s)) & ({M_t} | nx.ancestors(M_g, M_t))",
+                 "(nx.descendants(M_g, M_s) & nx.ancestors(M_g, M_t)) | {M_s, M_t}"]
+
+
+def searched_graph(fi, call):
+    """(graph name, source text, target text, restriction) of an all_simple_paths call, locals resolved.
+    restriction: None = the graph itself; "on-path" = G.subgraph(nodes on a source->target path) - loses no path;
+    "?" = some other sub-graph (not understood)."""
+    fl = C.flow_of(fi)
+    g = call.args[0] if call.args else None
+    src, dst = C.arg_of(call, 1, "source"), C.arg_of(call, 2, "target")
+    # (new temporaries are already propagated by osaca_sa/inline.py; known locals such as the graph and the offset stay names)
+    s_txt = U(src) if src is not None else None
+    t_txt = U(dst) if dst is not None else None
+    if isinstance(g, ast.Call) and isinstance(g.func, ast.Attribute) and g.func.attr == "subgraph" and len(g.args) == 1:
+        nodes = g.args[0]
+        if isinstance(nodes, ast.Name):
+            ds = [a for a in C.assigns_to(fi.node, nodes.id) if isinstance(a, ast.Assign)]
+            nodes = ds[0].value if len(ds) == 1 else nodes
+        for pat in ON_PATH_FORMS:
+            b = pm.match(pat, nodes)
+            if b is not None and U(b["M_g"]) == U(g.func.value) and U(b["M_s"]) == s_txt and U(b["M_t"]) == t_txt:
+                return U(g.func.value), s_txt, t_txt, "on-path"
+        return U(g.func.value), s_txt, t_txt, "?"
+    return (U(g) if g is not None else None), s_txt, t_txt, None
+
+
+def _unreachability_test(fi, e, pol):
+    """Is the fact (e, pol) 'the target cannot be reached from the source' (or 'source/target is not on any such path')?"""
+    fl = C.flow_of(fi)
+    t = U(e)
+    if pol and (t.startswith("not nx.has_path(") or " not in " in t):
+        if t.startswith("not nx.has_path("):
+            return True
+        rhs = e.comparators[0] if isinstance(e, ast.Compare) else None
+        if rhs is not None:
+            r = rhs
+            if any(pm.match(p, r) is not None for p in ON_PATH_FORMS) or pm.match("nx.descendants(M_g, M_s)", r) is not None:
+                return True
+    if (not pol) and (t.startswith("nx.has_path(") or (isinstance(e, ast.Compare) and isinstance(e.ops[0], ast.In))):
+        if t.startswith("nx.has_path("):
+            return True
+        r = e.comparators[0]
+        if any(pm.match(p, r) is not None for p in ON_PATH_FORMS) or pm.match("nx.descendants(M_g, M_s)", r) is not None:
+            return True
+    return False
+
+
 def roots_and_depth(ctx, rule, f, ext, seq_calls, ext_calls, kernel_names):
     """Shared by C05-R3 and C16-R2: no root is skipped, no depth bound below the longest possible cycle."""
     # every iteration of a root loop performs the search (no root is skipped), and the search depth is not bounded below
@@ -94,7 +144,18 @@ def roots_and_depth(ctx, rule, f, ext, seq_calls, ext_calls, kernel_names):
             loop = C.root_loop(c)
             if not isinstance(loop, ast.For):
                 continue
-            skip = fcfg.reachable(loop, loop, avoid=[c], within=loop)
+            # a root may be passed over when its copy in the next iteration cannot be reached at all (no cycle through it)
+            harmless = []
+            for st in ast.walk(loop):
+                if isinstance(st, ast.Continue) and C.enclosing_loop(st) is loop:
+                    facts = C.facts_at(st, stop=loop)
+                    test = C.parent(st).test if isinstance(C.parent(st), ast.If) else None
+                    parts = []
+                    if test is not None:
+                        parts = [(v, True) for v in test.values] if isinstance(test, ast.BoolOp) and isinstance(test.op, ast.Or) else [(test, True)]
+                    if parts and all(_unreachability_test(fi, e, p) for e, p in parts) and len(facts) <= len(parts) + 0:
+                        harmless.append(st)
+            skip = fcfg.reachable(loop, loop, avoid=[c] + harmless, within=loop)
             ctx.check(not skip, rule, "no root is skipped: every iteration of the root loop performs the path search", fi.where(c),
                       "an iteration of `for %s in %s` can return to the loop head without searching from that root: cycles that are "
                       "only found from a skipped root (e.g. a second cycle through an instruction that already lies on one) are not "
@@ -103,7 +164,7 @@ def roots_and_depth(ctx, rule, f, ext, seq_calls, ext_calls, kernel_names):
             if cut is None:
                 ctx.node_ok(rule, fi, c, "search depth unbounded (no cutoff)")
                 continue
-            g = U(c.args[0]) if c.args else "?"
+            g = searched_graph(fi, c)[0] or "?"      # the base graph: a sub-graph has at most as many nodes
             enough = {"len(%s)" % g, "%s.number_of_nodes()" % g, "len(%s.nodes)" % g, "len(%s.nodes())" % g, "%s.order()" % g}
             aff = C.affine(cut)
             terms = {k: v for k, v in aff.items() if k != 1}
@@ -187,6 +248,12 @@ def run(ctx):
         if src is None or dst is None:
             ctx.node_bad("R1", fi, call, "path query without explicit source/target")
             return
+        gname, s_txt, t_txt, restr = searched_graph(fi, call)
+        if restr == "?":
+            ctx.unknown("R1", U(call)[:100], fi.where(call), "the search runs on a sub-graph the rule cannot show to contain every path")
+            return
+        src = ast.parse(s_txt, mode="eval").body
+        dst = ast.parse(t_txt, mode="eval").body
         b = pm.match("M_i.line_number", src)
         good = b is not None and C.affine_eq(dst, ast.parse(
             "%s + %s" % (U(src), offname), mode="eval").body)
